@@ -47,6 +47,7 @@ type scenario struct {
 	Overwrite   bool
 	PreExisting bool
 	Svsm        bool   // an SVSM launch measurement is supplied (signed alongside the firmware's)
+	SvsmValue   []byte // the supplied SVSM launch measurement (nil: svsmMeasurement)
 	SvsmImage   []byte // an SVSM image is supplied (snapshotted next to the firmware)
 	// Vcs is the shape of the version-control destinations: "single" (Context.VCS), "list1"
 	// (Context.VCSs with one entry), "list2" (two entries), "list2+vcs" (two entries and VCS set).
@@ -84,6 +85,14 @@ func genScenario(t *rapid.T) scenario {
 	}
 	s.Vcs = rapid.SampledFrom([]string{"single", "single", "single", "list1", "list2", "list2", "list2+vcs"}).Draw(t, "vcs")
 	return s
+}
+
+// svsmValue is the SVSM launch measurement the request supplies when Svsm is set.
+func (s scenario) svsmValue() []byte {
+	if s.SvsmValue != nil {
+		return s.SvsmValue
+	}
+	return svsmMeasurement
 }
 
 func (s scenario) tech() string {
@@ -304,7 +313,7 @@ func run(s scenario, dir string, dry, only, reference bool) observed {
 		}
 		ec.SevSnp = &sev.SnpEndorsementRequest{Svn: 3, LaunchVmsas: s.Vmsas, Product: p, ImageID: fixedImageID}
 		if s.Svsm {
-			ec.SvsmSnpMeasurement = svsmMeasurement
+			ec.SvsmSnpMeasurement = s.svsmValue()
 		}
 	}
 	if s.Tdx {
@@ -313,6 +322,13 @@ func run(s scenario, dir string, dry, only, reference bool) observed {
 	ctx := keys.NewContext(context.Background(), &keys.Context{CA: &recCA{c}, Signer: signer, Manager: &recManager{c}, Random: bytes.NewReader(make([]byte, 4096))})
 	ctx = endorse.NewContext(ctx, ec)
 	ctx = output.NewContext(ctx, &output.Options{Overwrite: s.Overwrite || reference, Quiet: true, Out: io.Discard, Err: io.Discard})
+	return observe(dir, c, signer, vcss, func() error { return endorse.VirtualFirmware(ctx) }, func() context.Context { return ctx })
+}
+
+// observe performs one run (f) with fd 1 captured and the scratch directory dir compared before and
+// after. after returns the context the run worked on (nil if there is none), for the fallback of the
+// same-measurements clause when a dry run signs nothing.
+func observe(dir string, c *calls, signer *recSigner, vcss []*recVCS, f func() error, after func() context.Context) observed {
 	res := observed{calls: c, signer: signer, vcss: vcss}
 	before := fsSnapshot(dir)
 	res.stdout = captureStdout(func() {
@@ -321,11 +337,13 @@ func run(s scenario, dir string, dry, only, reference bool) observed {
 				res.pan = r
 			}
 		}()
-		res.err = endorse.VirtualFirmware(ctx)
+		res.err = f()
 	})
 	res.fsDiff = fsDiff(before, fsSnapshot(dir))
 	if signer.probe && res.pan == nil && len(signer.atSign) == 0 {
-		res.afterRun, res.afterRunErr = goldenOf(ctx)
+		if ctx := after(); ctx != nil {
+			res.afterRun, res.afterRunErr = goldenOf(ctx)
+		}
 	}
 	return res
 }
@@ -464,31 +482,47 @@ func noteFirst(key, format string, args ...any) {
 	}
 }
 
-// judge applies the property's clauses to one flagged run. ref is the golden measurement the
-// reference run signed and committed. It returns whether the case passed and a label saying which
-// comparison decided the same-measurements clause.
+// violation is one broken clause: a root-cause key and what was seen.
+type violation struct{ key, msg string }
+
+func violated(key, format string, args ...any) *violation {
+	return &violation{key: key, msg: fmt.Sprintf(format, args...)}
+}
+
+// judge applies the property's clauses to one flagged run and reports a broken clause through
+// ev.Violation. It returns whether the case passed and a label saying which comparison decided the
+// same-measurements clause.
 func judge(t ev.TB, name, desc string, s scenario, dry, only bool, ref *epb.VMGoldenMeasurement, refDigests [][]byte, got observed) (bool, string) {
+	v, decided := verdict(name, desc, s, dry, only, ref, refDigests, got)
+	if v != nil {
+		ev.Violation(t, v.key, "%s", v.msg)
+		return false, ""
+	}
+	return true, decided
+}
+
+// verdict applies the property's clauses to one flagged run. ref is the golden measurement the
+// reference run signed and committed. It returns the first broken clause (nil when the case passed)
+// and a label saying which comparison decided the same-measurements clause.
+func verdict(name, desc string, s scenario, dry, only bool, ref *epb.VMGoldenMeasurement, refDigests [][]byte, got observed) (*violation, string) {
 	if got.pan != nil {
 		key := "C15/dry-run-panic"
 		if only {
 			key = "C15/measurement-only-panic"
 		}
-		ev.Violation(t, key, "%s: the run panicked: %v", desc, got.pan)
-		return false, ""
+		return violated(key, "%s: the run panicked: %v", desc, got.pan), ""
 	}
 	failedLikeReal := false
 	if got.err != nil {
 		if !(dry && !only && s.refusable()) {
-			ev.Violation(t, "C15/flagged-run-failed", "%s: the run returned %v", desc, got.err)
-			return false, ""
+			return violated("C15/flagged-run-failed", "%s: the run returned %v", desc, got.err), ""
 		}
 		failedLikeReal = true
 	}
 	// no workspace, no write, no mode change, no commit - through the version-control interface ...
 	for _, p := range forbiddenWorkspaceCalls {
 		if n := got.calls.count(p); n != 0 {
-			ev.Violation(t, "C15/side-effect/"+p, "%s: %d calls to %s: %v", desc, n, p, got.calls.log)
-			return false, ""
+			return violated("C15/side-effect/"+p, "%s: %d calls to %s: %v", desc, n, p, got.calls.log), ""
 		}
 	}
 	for i, v := range got.vcss {
@@ -500,20 +534,17 @@ func judge(t ev.TB, name, desc string, s scenario, dry, only bool, ref *epb.VMGo
 			}
 		}
 		if len(v.files) != want {
-			ev.Violation(t, "C15/side-effect/files", "%s: the files of destination %d changed: %v", desc, i, keysOf(v.files))
-			return false, ""
+			return violated("C15/side-effect/files", "%s: the files of destination %d changed: %v", desc, i, keysOf(v.files)), ""
 		}
 	}
 	// ... or behind its back
 	if got.fsDiff != "" {
-		ev.Violation(t, "C15/side-effect/filesystem", "%s: the run changed the file system (working directory, TMPDIR, version-control roots and input directory are watched): %s", desc, got.fsDiff)
-		return false, ""
+		return violated("C15/side-effect/filesystem", "%s: the run changed the file system (working directory, TMPDIR, version-control roots and input directory are watched): %s", desc, got.fsDiff), ""
 	}
 	if only {
 		for _, p := range []string{"ca.", "signer.", "manager."} {
 			if n := got.calls.count(p); n != 0 {
-				ev.Violation(t, "C15/measurement-only-touches-keys", "%s: %d calls to %s*: %v", desc, n, p, got.calls.log)
-				return false, ""
+				return violated("C15/measurement-only-touches-keys", "%s: %d calls to %s*: %v", desc, n, p, got.calls.log), ""
 			}
 		}
 	}
@@ -522,8 +553,7 @@ func judge(t ev.TB, name, desc string, s scenario, dry, only bool, ref *epb.VMGo
 		want, have := firmwareMeasurements(ref), printedMeasurements(got.stdout)
 		for m := range want {
 			if !have[m] {
-				ev.Violation(t, "C15/measurement-only-report-differs", "%s: the real run signed %s, which the report does not show; printed values: %v", desc, m, sortedSet(have))
-				return false, ""
+				return violated("C15/measurement-only-report-differs", "%s: the real run signed %s, which the report does not show; printed values: %v", desc, m, sortedSet(have)), ""
 			}
 		}
 		// Values the real run also signs or derives from the same inputs may be shown as well.
@@ -533,17 +563,16 @@ func judge(t ev.TB, name, desc string, s scenario, dry, only bool, ref *epb.VMGo
 		}
 		for m := range have {
 			if !want[m] && !allowed[m] {
-				ev.Violation(t, "C15/measurement-only-report-differs", "%s: the report shows %s, which the real run does not sign; signed: %v", desc, m, sortedSet(want))
-				return false, ""
+				return violated("C15/measurement-only-report-differs", "%s: the report shows %s, which the real run does not sign; signed: %v", desc, m, sortedSet(want)), ""
 			}
 		}
 		if len(want) == 0 {
-			return true, "report/nothing-to-show"
+			return nil, "report/nothing-to-show"
 		}
-		return true, "report/set-of-values-equal"
+		return nil, "report/set-of-values-equal"
 	}
 	if failedLikeReal {
-		return true, "dry-run/refused-like-the-real-run"
+		return nil, "dry-run/refused-like-the-real-run"
 	}
 	// A dry run prints no measurements and stores no document; what it signs is only visible as a
 	// digest. Equal digests settle it. Otherwise (always so when the document carries a launch digest
@@ -557,26 +586,25 @@ func judge(t ev.TB, name, desc string, s scenario, dry, only bool, ref *epb.VMGo
 			}
 		}
 		if all {
-			return true, "dry-run/signed-identical-bytes"
+			return nil, "dry-run/signed-identical-bytes"
 		}
 	}
 	if got.signer.probeErr != nil {
 		noteFirst(name+"/probe", "%s: inconclusive: the golden measurement could not be recomputed at signing time: %v", desc, got.signer.probeErr)
-		return true, "inconclusive/probe-failed"
+		return nil, "inconclusive/probe-failed"
 	}
 	probes, label := got.signer.atSign, "dry-run/measured-at-signing-equal"
 	if len(probes) == 0 {
 		if got.afterRunErr != nil || got.afterRun == nil {
 			noteFirst(name+"/probe", "%s: inconclusive: the dry run signed nothing and its golden measurement could not be recomputed: %v", desc, got.afterRunErr)
-			return true, "inconclusive/probe-failed"
+			return nil, "inconclusive/probe-failed"
 		}
 		probes, label = []*epb.VMGoldenMeasurement{got.afterRun}, "dry-run/unsigned-measured-after-run-equal"
 	}
 	for _, g := range probes {
 		if d := measurementDiff(ref, g); d != "" {
-			ev.Violation(t, "C15/dry-run-signs-different-measurements", "%s: the real run signed, the dry run measured: %s", desc, d)
-			return false, ""
+			return violated("C15/dry-run-signs-different-measurements", "%s: the real run signed, the dry run measured: %s", desc, d), ""
 		}
 	}
-	return true, label
+	return nil, label
 }
